@@ -18,7 +18,7 @@ fi
 echo "seed $SEED applied to a scratch worktree of /repo at $(git -C /repo rev-parse --short HEAD) on $(date -u +%FT%TZ)"
 for c in "$@"; do
   echo "== ./check $c --tier quick"
-  (cd /verif && VERIF_SCRATCH=$S ./check $c --tier quick 2>&1 | grep -E "^VIOLATION|^  key=|rc=|Error|error" | head -14)
+  (cd /verif && VERIF_SCRATCH=$S ./check $c --tier quick 2>&1 | grep -E "^VIOLATION|^  key=|rc=|ToolError" | head -14)
 done
 } > $OUT 2>&1
 git -C $S/repo checkout -q -- .
